@@ -391,12 +391,66 @@ package render
 // rendered with a fresh map holding the current bindings (plus the explicit ones).
 
 //@ func (render.Config).Compile
-//@ unverified
-//@ props C14 C06
+//@ props C14 C06 C07 C01
+//@ panics nothing
+//@ assumes config: forall(k, "Str", has(c.grammar.blockDefs, k) ==> mapget(c.grammar.blockDefs, k) != nil) && forall(k, "Str", has(c.grammar.tags, k) ==> mapget(c.grammar.tags, k) != nil)
 //@ assigns *
 //@ ensures one: (result1 == nil) != (result0 == nil)
 //@ ensures tree: @tree
 //@ ensures silent: wunchanged()
+
+// The compilers registered for tags and blocks (AddTag / AddBlock) are outside the contracts.
+// ASSUMED: a compiler returns either an error or a non-nil renderer, writes nothing and leaves
+// existing trees alone.
+//@ func functype render.TagCompiler
+//@ names expr
+//@ assigns *
+//@ ensures one: result1 == nil ==> result0 != nil
+//@ ensures tree: @tree && sameold("S$Int") && sameold("M$has$Str$Int") && sameold("M$val$Str$Int") && sameold("M$has$Str$Fn") && sameold("M$val$Str$Fn")
+//@ ensures silent: wunchanged()
+//@ func functype render.BlockCompiler
+//@ names node
+//@ assigns *
+//@ ensures one: result1 == nil ==> result0 != nil
+//@ ensures tree: @tree && sameold("S$Int") && sameold("M$has$Str$Int") && sameold("M$val$Str$Int") && sameold("M$has$Str$Fn") && sameold("M$val$Str$Fn")
+//@ ensures silent: wunchanged()
+
+// compileNode turns one AST node into a render node or an error, never both, never a panic.
+// ASSUMED (the parser builds only these node types; parseTokens' appends are of exactly these
+// types but that is not stated as a postcondition): n is one of the seven AST node types.
+//@ func (render.Config).compileNode
+//@ props C06 C07 C01
+//@ panics nothing
+//@ requires node: n != nil
+//@ assumes astNode: is(n, *parser.ASTBlock) || is(n, *parser.ASTRaw) || is(n, *parser.ASTSeq) || is(n, *parser.ASTTag) || is(n, *parser.ASTText) || is(n, *parser.ASTObject) || is(n, *parser.ASTTrim)
+//@ assumes wellFormed: (is(n, *parser.ASTBlock) ==> pl_ptr(n) != 0) && (is(n, *parser.ASTRaw) ==> pl_ptr(n) != 0) && (is(n, *parser.ASTSeq) ==> pl_ptr(n) != 0) && (is(n, *parser.ASTTag) ==> pl_ptr(n) != 0) && (is(n, *parser.ASTText) ==> pl_ptr(n) != 0) && (is(n, *parser.ASTObject) ==> pl_ptr(n) != 0 && as(n, *parser.ASTObject).Expr != nil) && (is(n, *parser.ASTTrim) ==> pl_ptr(n) != 0)
+//@ assumes config: forall(k, "Str", has(c.grammar.blockDefs, k) ==> mapget(c.grammar.blockDefs, k) != nil) && forall(k, "Str", has(c.grammar.tags, k) ==> mapget(c.grammar.tags, k) != nil)
+//@ assigns *
+//@ ensures one: (result1 == nil) != (result0 == nil)
+//@ ensures block: is(n, *parser.ASTBlock) && result1 == nil ==> is(result0, *render.BlockNode)
+//@ ensures tree: @tree && sameold("S$Int") && sameold("M$has$Str$Int") && sameold("M$val$Str$Int") && sameold("M$has$Str$Fn") && sameold("M$val$Str$Fn")
+//@ ensures silent: wunchanged()
+
+//@ func (render.Config).compileNodes
+//@ props C06 C07 C01
+//@ panics nothing
+//@ assumes children: forall(k, 0, len(nodes), nodes[k] != nil)
+//@ assigns *
+//@ ensures one: result1 == nil ==> forall(k, 0, len(result0), result0[k] != nil)
+//@ ensures tree: @tree && sameold("S$Int") && sameold("M$has$Str$Int") && sameold("M$val$Str$Int") && sameold("M$has$Str$Fn") && sameold("M$val$Str$Fn")
+//@ ensures silent: wunchanged()
+//@ loop 1 invariant sofar: freshOrNil(out) && forall(k, 0, len(out), out[k] != nil) && forall(k, 0, len(nodes), nodes[k] != nil)
+//@ loop 1 invariant frames: @tree && sameold("S$Int") && sameold("M$has$Str$Int") && sameold("M$val$Str$Int") && sameold("M$has$Str$Fn") && sameold("M$val$Str$Fn") && wunchanged()
+
+//@ func (render.Config).compileBlocks
+//@ props C06 C07 C01
+//@ panics nothing
+//@ assumes children: forall(k, 0, len(blocks), blocks[k] != nil)
+//@ assigns *
+//@ ensures tree: @tree && sameold("S$Int") && sameold("M$has$Str$Int") && sameold("M$val$Str$Int") && sameold("M$has$Str$Fn") && sameold("M$val$Str$Fn")
+//@ ensures silent: wunchanged()
+//@ loop 1 invariant sofar: freshOrNil(out) && forall(k, 0, len(blocks), blocks[k] != nil)
+//@ loop 1 invariant frames: @tree && sameold("S$Int") && sameold("M$has$Str$Int") && sameold("M$val$Str$Int") && sameold("M$has$Str$Fn") && sameold("M$val$Str$Fn") && wunchanged()
 
 //@ func (render.rendererContext).RenderFile
 //@ props C14 C12 C03 C01
@@ -562,8 +616,9 @@ package render
 //@ func (render.grammar).findBlockDef
 //@ props C01
 //@ panics nothing
+//@ assumes config: forall(k, "Str", has(g.blockDefs, k) ==> mapget(g.blockDefs, k) != nil)
 //@ assigns nothing
-//@ ensures lookup: result1 == has(g.blockDefs, name) && (result1 ==> result0 == mapget(g.blockDefs, name))
+//@ ensures lookup: result1 == has(g.blockDefs, name) && (result1 ==> result0 == mapget(g.blockDefs, name) && result0 != nil)
 
 //@ func (render.nodeContext).Evaluate
 //@ props C08 C01
